@@ -32,7 +32,7 @@ ASSUMPTIONS = [
 ]
 REQUIRED_COUNTERS = ['runs_checked', 'events_logged']
 CASE_TIMEOUT = 300
-PREDICATES = ['none', 'all_true', 'all_false', 'every_3rd', 'only_last', 'first_selected_late']
+PREDICATES = ['none', 'all_true', 'all_false', 'every_3rd', 'only_last', 'first_selected_late', 'first_occurrence']
 QUIET_S = 6.0
 WATCHDOG_S = 60.0
 
@@ -74,6 +74,18 @@ def gen_cases(tier, seed):
 def predicate_for(name, n):
     if name == 'none':
         return None
+    if name == 'first_occurrence':
+        # a predicate with memory ("first row of each group"): it holds for a row iff asked about the rows in order, each
+        # row exactly once
+        seen = set()
+
+        def first_occurrence(row):
+            k = row['id'] % 1000 % 7
+            if k in seen:
+                return False
+            seen.add(k)
+            return True
+        return first_occurrence
     return {'all_true': lambda row: True, 'all_false': lambda row: False,
             'every_3rd': lambda row: row['id'] % 3 == 0, 'only_last': lambda row: row['id'] % 1000 == n - 1,
             'first_selected_late': lambda row: row['id'] % 1000 >= (2 * n) // 3}[name]
